@@ -289,7 +289,8 @@ def load_known(pid):
 
 
 def write_replay(pid, partname, case, mismatch_json):
-    d = os.path.join(ROOT, "replays", pid)
+    d = os.path.join(os.environ.get("VERIF_REPLAY_DIR") or
+                     os.path.join(ROOT, "replays"), pid)
     os.makedirs(d, exist_ok=True)
     doc = {"property": pid, "part": partname, "case": case,
            "mismatch": mismatch_json}
